@@ -139,6 +139,78 @@ fn run_one(rep: &mut Report, kind: CacheKind, static_mode: bool, t: &Target, seq
     had_insert_then_poke
 }
 
+/// Types that opt out of hot-reloading keep doing so behind the wrappers the
+/// crate provides (`Arc<T>`, `OnceInitCell<T, _>`), for plain and enhanced mode.
+fn opt_out_wrappers(rep: &mut Report, rounds: usize) {
+    use crate::mem::{Hot, Mem};
+    use assets_manager::{AssetCache, OnceInitCell};
+    use std::sync::Arc;
+    type Frozen = Leaf<1, 0, false>;
+    for round in 0..rounds {
+        rep.eval();
+        let static_mode = round % 3 == 2;
+        let mem = Mem::new("c10w", Hot::Yes);
+        mem.write("w", "a", b"w0");
+        let owned;
+        let cache: &AssetCache<Mem> = if static_mode {
+            let l: &'static AssetCache<Mem> = Box::leak(Box::new(AssetCache::with_source(mem.clone())));
+            l.enhance_hot_reloading();
+            l
+        } else {
+            owned = AssetCache::with_source(mem.clone());
+            &owned
+        };
+        let plain = cache.load::<Frozen>("w").expect("plain");
+        let arc = cache.load::<Arc<Frozen>>("w").expect("arc");
+        let cell = cache.load::<OnceInitCell<Frozen, CellVal>>("w").expect("cell");
+        let p0 = (plain.get() as *const Frozen as usize, plain.get().token.serial());
+        let a0 = (Arc::as_ptr(&arc.read()) as usize, arc.read().token.serial());
+        let c0 = cell.read().get_or_init(|_| CellVal { token: crate::ledger::Token::new(), n: 7 }).token.serial();
+        let scen = json!({"kind": "opt-out wrappers", "round": round, "enhanced_mode": static_mode});
+        for g in 1..=3 {
+            mem.write("w", "a", format!("w{g}").as_bytes());
+            mem.notify_file("w", "a");
+            let sent = mem.sent();
+            if !crate::util::wait_until(if cfg!(miri) { 600_000 } else { 120_000 }, || cache.verif_events_handled() == Some(sent)) {
+                rep.inconclusive("opt_out_wrappers: barrier watchdog");
+                return;
+            }
+            if !static_mode {
+                cache.hot_reload();
+            }
+            let p = (plain.get() as *const Frozen as usize, plain.get().token.serial());
+            let a = (Arc::as_ptr(&arc.read()) as usize, arc.read().token.serial());
+            let c = cell.read().get().map(|v| v.token.serial());
+            let ids = [
+                crate::scen::rid_num(plain.last_reload_id()),
+                crate::scen::rid_num(arc.last_reload_id()),
+                crate::scen::rid_num(cell.last_reload_id()),
+            ];
+            let mut changed = vec![];
+            if p != p0 || ids[0] != 0 {
+                changed.push("T");
+            }
+            if a != a0 || ids[1] != 0 {
+                changed.push("Arc<T>");
+            }
+            if c != Some(c0) || ids[2] != 0 {
+                changed.push("OnceInitCell<T, _>");
+            }
+            if !changed.is_empty() {
+                rep.violation(
+                    "protected-rewritten",
+                    "C10/opt-out-type-rewritten-behind-wrapper",
+                    json!({"rewritten": changed, "reload_ids": ids, "after_notified_edits": g}),
+                    scen.clone(),
+                );
+                break;
+            }
+            rep.count("protected_entries_checked", 3);
+        }
+        rep.nontrivial(mix(0x10a, round as u64));
+    }
+}
+
 pub fn run(args: &Args) -> Report {
     let mut rep = Report::new(args);
     rep.rule = "histories on one key mixing load / remove / take / clear / get_or_insert / (edit the file the key \
@@ -207,6 +279,9 @@ pub fn run(args: &Args) -> Report {
         if h == 0 {
             rep.sample(json!({"target": t.ty.tag(), "cache": format!("{kind:?}"), "sequence": format!("{seq:?}")}));
         }
+    }
+    if args.shard == 0 {
+        opt_out_wrappers(&mut rep, if miri { 1 } else { args.n(12, 60) });
     }
     rep.exhaustive = Some(!miri);
     rep.floor_set("cache_kinds", if miri { 1 } else { 4 });
